@@ -11,7 +11,7 @@ from harness import gen
 from harness.framework import Suite
 
 PID = "C04"
-LEAN_MODS = ["SwcVerif.Props.C04", "SwcVerif.Props.C04Gen"]
+LEAN_MODS = ["SwcVerif.Props.C04", "SwcVerif.Props.C04Gen", "SwcVerif.Props.C04Front"]
 TRANSLATE_ALGO = ["AlgoTraverse", "AlgoTravFront"]      # (AlgoTravFront: the three public entry points, harness/algo_specs/04_travfront.py)
 # Gen/AlgoTraverse.lean is regenerated from swc_utils/base.py::_traverse_dfs on every run
 DRIVER_FILES = ["SwcVerif/Model/AlgoRunTraverse.lean", "SwcVerif/Model/AlgoRunTravFront.lean"]
@@ -22,6 +22,16 @@ THEOREMS = [
     # refinement: the definition generated from _traverse_dfs on this run IS the structural recursion
     "RefineTrav.traverse_refines", "C04.generated_traverse_eq_spec", "C04.generated_eq_model",
     "C04.generated_enter_once", "C04.generated_leave_once",
+    # the three public entry points (swc_utils.traverse, Tree.traverse with its `wrap` closures / Tree.__getitem__, Tree.Node.traverse), every keyword
+    # set, generated from the current sources (Gen/AlgoTravFront.lean) and proved to be the same structural recursion with the user's callbacks
+    "RefineTravFront.tree_getitem_eq", "RefineTravFront.wrapped_enter_eq", "RefineTravFront.wrapped_leave_eq", "RefineTravFront.wrapped_enter_outside",
+    "RefineTravFront.traverse_el_r_refines", "RefineTravFront.traverse_e_r_refines", "RefineTravFront.traverse_l_r_refines",
+    "RefineTravFront.traverse_el_refines", "RefineTravFront.traverse_e_refines", "RefineTravFront.traverse_l_refines",
+    "RefineTravFront.tree_traverse_el_r_refines", "RefineTravFront.tree_traverse_e_r_refines", "RefineTravFront.tree_traverse_l_r_refines",
+    "RefineTravFront.tree_traverse_el_refines", "RefineTravFront.tree_traverse_e_refines", "RefineTravFront.tree_traverse_l_refines",
+    "RefineTravFront.node_traverse_el_refines", "RefineTravFront.node_traverse_e_refines", "RefineTravFront.node_traverse_l_refines",
+    "C04.generated_entry_points_eq_spec", "C04.generated_tree_entry_points_every_tree",
+    "C04.generated_entry_points_enter_once", "C04.generated_entry_points_leave_once",
 ]
 TRUSTED = ["hand-written model Model/Traverse.lean of _traverse_dfs, tied by the c04.trav correspondence suite"]
 ASSUMPTIONS = [
